@@ -51,6 +51,7 @@ FINDING_POSITIONAL = "C14-store-call-sites-positional-version"
 FINDING_EMPTY_BUNDLE = "C14-empty-21-bundle-not-detected"
 FINDING_TAXII_ALL_VERSIONS = "C14-taxii-all-versions-first-parse-unversioned"
 FINDING_TAXII_SINK_DICT = "C14-taxii-sink-add-dict-ignores-version"
+FINDING_TAXII_SINK_ASIS = "C14-taxii-sink-as-is-content-redetected"
 
 ZERO = "00000000-0000-0000-0000-000000000000"
 V1 = "c9bd2a4e-2b1c-1d3e-8f00-0123456789ab"
@@ -423,8 +424,13 @@ def probe_modes(run):
         run.notes.append("detect_spec_version on a bundle without objects gives %r (neither variant)" % (r[0],))
     if not notype_parse and r[1] != ["KeyError", "type"]:
         run.notes.append("detect_spec_version on {} gives %r (neither variant)" % (r[1],))
+    # does the plain-dict branch of TAXIICollectionSink.add parse with the version? (stand-in client, worker of its own)
+    d21 = dict(WITNESS, id="identity--" + v4)
+    t = common.run_impl("c14_impl", [{"op": "probe", "data": d21, "entries": [["taxii.TAXIICollectionSink.add", {"version": "2.0"}]],
+                                      "direct": []}], procs=1, args=("taxii",))[0]
     return {"bundle_default": bundle_default, "notype_parse": notype_parse,
-            "canonical_text": r[3] != ["ok"], "regex_end_Z": r[4] != ["ok"]}, r[2]
+            "canonical_text": r[3] != ["ok"], "regex_end_Z": r[4] != ["ok"],
+            "taxii_sink_dict_parses": t["entries"][0][0] == "exc"}, r[2]
 
 
 def coq_mode(md):
@@ -620,7 +626,7 @@ def check(run):
         for e in TAXII_ENTRIES:
             for cfg in cfgs.setdefault(e, cfg_grid(e, run.tier)):
                 plan.append((qi, e, cfg))
-                if e in TAXII_SINK_ENTRIES and "allow_custom" not in cfg:
+                if e in TAXII_SINK_ENTRIES and cfg.get("allow_custom") is not False:
                     for wr in ("str", "bundle", "list"):
                         plan.append((qi, e, dict(cfg, wrap=wr)))
 
@@ -692,8 +698,14 @@ def check(run):
                 if any(t[3] == ("v", None) for t in tr) or (not tr and unv is not None and (
                         (unv[0] == "exc" and outcomes_equal(out, unv)) or (unv[0] == "ok" and out[0] == "ok"))):
                     known_cls = FINDING_TAXII_ALL_VERSIONS
-            if e in TAXII_SINK_ENTRIES and cfg.get("wrap") in (None, "list"):
-                known_cls = FINDING_TAXII_SINK_DICT           # a plain dict goes into v2x.Bundle(..) and never meets parse(.., version)
+            if e in TAXII_SINK_ENTRIES and v is not None:
+                w0 = direct.get((fn_own, ac_own, io_own, v))
+                if w0 is not None and w0[0] == "ok" and w0[1] == "dict":
+                    # the parser hands content of a type unregistered in the named version back as is; the sink then wraps it in
+                    # a v2x.Bundle chosen by 'spec_version', which detects and validates it again
+                    known_cls = FINDING_TAXII_SINK_ASIS
+                elif not md["taxii_sink_dict_parses"] and cfg.get("wrap") in (None, "list"):
+                    known_cls = FINDING_TAXII_SINK_DICT       # a plain dict goes into v2x.Bundle(..) and never meets parse(.., version)
             # oracle: the property itself (a version is named)
             if v is not None and not whole_bundle(e, cfg) and out[0] in ("ok", "exc") and out[-1] is not None \
                     and v not in out[-1]:
@@ -715,7 +727,9 @@ def check(run):
                         {"kind": "entry", "entry": e, "cfg": cfg, "data": p["data"]}, finding=cls))
             # correspondence: the triple the generated table predicts (the dict / list-of-dict branch of
             # TAXIICollectionSink.add builds v2x.Bundle(stix_data) and reaches no parser call site: not in the table)
-            if model_ok and not (e in TAXII_SINK_ENTRIES and cfg.get("wrap") in (None, "list")):
+            if model_ok and not (e in TAXII_SINK_ENTRIES and (
+                    (cfg.get("wrap") in (None, "list") and not md["taxii_sink_dict_parses"]) or known_cls == FINDING_TAXII_SINK_ASIS
+                    or (v is None and (direct.get((fn_own, ac_own, io_own, None)) or [0, 0])[1] == "dict"))):
                 key = (e, json.dumps({k: x for k, x in cfg.items() if k != "wrap"}, sort_keys=True))
                 triples = eff.get(key)
                 if triples is None:
